@@ -811,7 +811,41 @@ def c08_21(ctx):
 
 
 
+def c08_22(ctx):
+    """the BIP44-family account paths: HDPrivateKey.get_private_key evaluated for the four networks × purposes 44' / 49' / 84' / 86' × account 0 / 7 ×
+    external / internal × address 0 / 5, with traverse() a recording stand-in: the key comes from m / purpose / coin' / account' / chain /
+    address with coin 0' on mainnet and 1' on EVERY test network (testnet, signet, regtest: SLIP-44), chain 0 external / 1 internal"""
+    from sa.cells import Evaluator, Obj, Raised, Undecided
+    spec = "hd:HDPrivateKey.get_private_key"
+    mod, fn = rl.get(ctx, spec)
+    hooks = {("HDPrivateKey", "traverse"): lambda o, path, *a, **k: Obj("hd", "HDPrivateKey", {"private_key": ("key-at", path)})}
+    n = 0
+    try:
+        for net in ("mainnet", "testnet", "signet", "regtest"):
+            for purpose in ("44'", "49'", "84'", "86'"):
+                for acct in (0, 7):
+                    for ext in (True, False):
+                        for idx in (0, 5):
+                            n += 1
+                            me = Obj("hd", "HDPrivateKey", {"network": net, "depth": 0})
+                            want = "m/%s/%s/%d'/%d/%d" % (purpose, "0'" if net == "mainnet" else "1'", acct, 0 if ext else 1, idx)
+                            try:
+                                r = Evaluator(ctx.repo, method_hooks=hooks).call(spec, [purpose], kwargs={"account_num": acct, "is_external": ext, "address_num": idx}, self_obj=me)
+                            except Raised as x:
+                                return [ctx.bad(spec, "%s, purpose %s: raises %s" % (net, purpose, x.name), fn, mod, key="account-path")]
+                            got = r[1] if isinstance(r, tuple) and len(r) == 2 and r[0] == "key-at" else r
+                            norm_ = got.replace("h", "'").lower() if isinstance(got, str) else got
+                            if norm_ != want:
+                                return [ctx.bad(spec, "on %s the %s key of account %d (%s chain, index %d) is taken from %s, the standard path is %s" % (
+                                    net, purpose, acct, "external" if ext else "internal", idx, got, want), fn, mod, key="account-path")]
+    except Undecided as u:
+        return [ctx.err(spec, "get_private_key not evaluable: %s" % u, fn, mod)]
+    ctx.count("cells", n)
+    return [ctx.ok(spec, "%d (network, purpose, account, chain, index) cells: m / purpose / coin' / account' / chain / index with coin 1' on every test network" % n, fn, mod, key="account-path")]
+
+
 OBLIGATIONS = [
+    ("C08.22", "CELLS account paths", c08_22),
     ("C08.18", "CELLS xkey fields", c08_18),
     ("C08.19", "CELLS xkey string entry", c08_19),
     ("C08.21", "CELLS master key from seed", c08_21),
